@@ -1,4 +1,4 @@
-CONSTANTS Keys = {1,2,3,4} Weights = {0,1,2,5} Vals = {1,2} Bounds <- BoundsT
+CONSTANTS Keys = {1,2,3} Weights = {0,1,2,5} Vals = {1,2} Bounds <- BoundsT
 SPECIFICATION Spec
 INVARIANTS Bounded DistinctKeys NoOverweightEntry
 PROPERTY EvictOldestFirst
